@@ -340,8 +340,15 @@ func (p *Prog) castValue(from int, v VRef, tfrom int, t TRef, depth int) (string
 			return "", invalid{p.NameOf(v.Def) + " is not a constant"}
 		}
 		// the referenced constant must itself be valid
-		if _, err := p.castValue(c.File, c.Val, c.File, c.Type, depth+1); err != nil {
+		own, err := p.castValue(c.File, c.Val, c.File, c.Type, depth+1)
+		if err != nil {
 			return "", err
+		}
+		if strings.HasPrefix(own, "item:") && !rt.List && (rt.Base == "i32" || rt.Base == "i64") {
+			// the constant holds an enum item (whether it was written as the item or as
+			// its number): where an integer is expected the item stands for its value,
+			// and the compiled module keeps the item
+			return own, nil
 		}
 		return p.castValue(c.File, c.Val, tfrom, t, depth+1)
 	}
